@@ -95,11 +95,37 @@ fn i128_total(r: &mut Rng) -> i128 {
     }
 }
 
+/// compose with every field at the ends of its natural (calendar-like) range and one past it: carries ripple through
+/// several fields at once (36524 d 23 h 59 min 60 s is one century)
+fn compose_natural_edges(out: &mut dyn Write) {
+    for sign in [-1i64, 1] {
+        for days in [0u64, 36_524, 36_525] {
+            for hours in [0u64, 23, 24] {
+                for minutes in [0u64, 59, 60] {
+                    for seconds in [0u64, 59, 60] {
+                        for ms in [0u64, 999, 1000] {
+                            for us in [0u64, 999] {
+                                for ns in [0u64, 999, 1000] {
+                                    writeln!(out, "compose {} {} {} {} {} {} {} {}", sign, days, hours, minutes, seconds, ms, us, ns).unwrap();
+                                }
+                            }
+                        }
+                    }
+                }
+            }
+        }
+    }
+}
+
 pub fn inputs_c02(r: &mut Rng, n: usize, _tier: &str, out: &mut dyn Write) {
     // boundary block: raw parts at the extreme and central century counts with nanoseconds at every whole number of
     // centuries (0..5, the most a u64 holds) +/- 1 and at the u64 limit (a seeded change that mishandled
     // (i16::MAX, k centuries) exactly was hit by only one of 20 000 random cases)
     let mut n = n;
+    if n >= 10_000 {
+        compose_natural_edges(out);
+        n -= 2916;
+    }
     if n >= 1000 {
         let npc = NPC as u64;
         for c in [-32768i64, -32767, -2, -1, 0, 1, 32766, 32767] {
